@@ -120,6 +120,13 @@ def backend_monitors(chk, hit, scenarios):
             hit("dkg_honest_fails", sc, "all parties honest and every message delivered, yet KeyGen did not return Ok everywhere: " + tag)
         if sc["deviation"] in ("wrongreveal", "wrongcommit", "commit-lastbyte", "commit-firstbyte") and oks:
             hit("dkg_mismatch_accepted", sc, "a revealed key that does not match its commitment was accepted: " + tag)
+        if sc["deviation"].startswith("commit-placeholder") and oks:
+            # first value wins: the placeholder IS the commitment, no key matches it; completing means the deviator was allowed to
+            # commit after it had seen the honest keys
+            hit("dkg_late_commitment_accepted", sc, "honest parties completed although the deviating party's real commitment came "
+                "after their keys (a placeholder stood in for it): " + tag)
+        if sc["deviation"] in ("badkey-flip1", "badkey-flip40", "badkey-flip70", "badkey-fliplast", "badkey-ff") and oks:
+            hit("dkg_nonpoint_accepted", sc, "a revealed key that is not a point of the group was accepted: " + tag)
         if sc["deviation"] in ("offpoly",) and oks and not on_polynomial(
                 [1 if i in sc["victims"] else 0 for i in range(1, sc["n"] + 1)], sc["t"]):
             # the victims' keys are moved by g^1: the key vector stays on a polynomial of degree < t exactly when the 0/1
@@ -231,7 +238,7 @@ def run(pid, tier, seed):
     chk.cov["rule"] = ("backend level: real bls.TBLS (and ps.TPS) key generators, one goroutine per KeyGen, every message handed over by "
                        "a seeded scheduler (early, late, duplicated, out of phase), crypto/rand.Reader seeded so that every dealt "
                        "polynomial is known; (n,t) in {(3,2),(3,3),(4,2),(4,3),(4,4)} (+ (2,2),(5,3),(5,5) thorough); everybody honest "
-                       "and one deviating participant from a catalogue of 18 deviations x victim sets; each honest party's experienced "
+                       "and one deviating participant from a catalogue of 31 deviations x victim sets; each honest party's experienced "
                        "event list is replayed on the Coq model in the exponent and verdict / sk / key exponents / threshold key / "
                        "broadcast order compared exactly; C05/C01 monitors on the real results. full stack: threshold.LoudScheme and "
                        "SilentScheme with the real disc/rbc/msg over an in-memory per-link-FIFO network with a seeded scheduler. "
